@@ -86,6 +86,8 @@ pub fn obs(rt: &CoreRuntime) -> Value {
         "tot": t.irq_total, "instr": rt.instruction_count(), "cyc": rt.cycle_count(),
         "src": match t.last_irq_src.as_deref() { Some("MTI") => 0, Some("STI") => 1, Some("KEY") => 2, Some("ONK") => 3, _ => -1 },
         "nm": if live_m { t.next_mti } else { 0 }, "ns": if live_s { t.next_sti } else { 0 },
+        // the keyboard as the firmware sees it (MachineKbd.tla): queued event bytes, oldest first, and the key-interrupt latch
+        "kf": rt.keyboard.as_ref().map(|k| k.fifo_snapshot()).unwrap_or_default(), "kl": if t.key_irq_latched { 1 } else { 0 },
     })
 }
 
@@ -176,6 +178,14 @@ pub fn handle(ctx: &mut RtCtx, cmd: &str, req: &Value) -> Result<Value, String> 
         }
         "rt.release_on" => {
             ctx.rts.get_mut(&name).ok_or("no rt")?.release_on_key();
+            Ok(json!({}))
+        }
+        // non-default debounce threshold of the runtime's matrix (the only threshold the Rust matrix lets a caller set)
+        "rt.kbd_cfg" => {
+            let rt = ctx.rts.get_mut(&name).ok_or("no rt")?;
+            if let (Some(kb), Some(p)) = (rt.keyboard.as_mut(), req["press_th"].as_u64()) {
+                kb.set_press_threshold(p as u8);
+            }
             Ok(json!({}))
         }
         "rt.key" => {
